@@ -346,7 +346,7 @@ var checks = map[string]Check{
 	},
 	"C16": {
 		Level:       "model_checking",
-		Rule:        "a scripted raw client sends every first message of the alphabet {good/bad/erroring/undecodable AUTH_CALL, CALL, PUSH, REPLY, AUTH_REPLY, unknown type, garbage, every strict prefix of a valid AUTH_CALL, nothing} with 0-2 application frames pipelined before or after the verdict, for checker verdicts accept/reject/reject-with-value; all interleavings of client, accept path and reader up to the preemption bound; oracle: handler and per-message hook counters, checker count, AUTH_REPLY count on the wire, connection closed and not indexed when rejected",
+		Rule:        "a scripted raw client sends every first message of the alphabet {good/bad/erroring/undecodable AUTH_CALL, CALL, PUSH, REPLY, AUTH_REPLY, unknown type, garbage, every strict prefix of a valid AUTH_CALL, nothing} with 0-2 application frames pipelined before or after the verdict, for checker verdicts accept/reject/reject-with-value, a checker that does or does not rename the session (SetID) before deciding, a client that may hang up before the verdict, entering through Peer.ServeConn or through the accept loop of a listener; all interleavings of client, accept path and reader up to the preemption bound; oracle: handler and per-message hook counters, checker count, AUTH_REPLY count on the wire, connection closed and not indexed when rejected",
 		Assumptions: baseAssumptions,
 		Jobs: func(tier string) []Job {
 			if tier == "thorough" {
@@ -354,7 +354,7 @@ var checks = map[string]Check{
 				j.Budget = 900
 				return []Job{j}
 			}
-			return []Job{sched("c16", "", 2, 8)}
+			return []Job{sched("c16", "", 2, 16)}
 		},
 	},
 	"C17": {
